@@ -133,6 +133,8 @@ class Sim:
         self.deadlock = False
         self.step_limit = False
         self.aborting = False
+        self.frozen = False  # set when a livelock was cut short: nothing after it is history
+        self.livelock: int | None = None
         self.t0 = 0.0
         self.loop: SimEventLoop | None = None
         self.root_scope: anyio.CancelScope | None = None
@@ -162,6 +164,8 @@ class Sim:
             return "-"
 
     def log(self, kind: str, /, **data: Any) -> int:
+        if self.frozen:
+            return self.seq
         self.seq += 1
         try:
             t = round(self.now(), 6)
@@ -208,6 +212,7 @@ class Sim:
 
     def _on_step(self, step: int, label: str) -> None:
         self.step = step
+        PROGRESS[0] += 1
         if self.trace_steps:
             if label != self._last_label:
                 self._last_label = label
@@ -218,6 +223,7 @@ class Sim:
 
     def _trio_step(self, task) -> None:
         self.step += 1
+        PROGRESS[0] += 1
         step = self.step
         if step > self.step_cap and not self.step_limit:
             self.step_limit = True
@@ -312,6 +318,57 @@ def _jd(o: Any) -> Any:
     return norm(repr(o))
 
 
+# ---------------------------------------------------------------------- livelock watchdog
+# The step cap bounds runs that keep scheduling; it cannot bound a run that never returns
+# to the scheduler (an endless loop *inside* one step, e.g. the standard library walking a
+# cyclic __context__ chain that the code under test created).  A CPU-time interval timer
+# (ITIMER_VIRTUAL: it only advances while this process executes, so a stalled machine can
+# not trip it) fires every LIVELOCK_CPU_S seconds of CPU; two consecutive ticks without a
+# single scheduler step in between mean one step has burnt >= LIVELOCK_CPU_S of CPU (a
+# normal step takes microseconds) and the run is cut short as a livelock.
+PROGRESS = [0]
+LIVELOCKS: list[dict] = []
+LIVELOCK_CPU_S = float(os.environ.get("VERIF_LIVELOCK_CPU_S", "3"))
+
+
+class SimLivelock(KeyboardInterrupt):
+    """Raised inside the stuck step (KeyboardInterrupt: asyncio lets it through)."""
+
+
+class _LivelockGuard:
+    def __init__(self, sim: "Sim") -> None:
+        self.sim = sim
+        self.last = -1
+        self.fired = 0
+
+    def _tick(self, signum: int, frame: Any) -> None:
+        if PROGRESS[0] != self.last:
+            self.last = PROGRESS[0]
+            return
+        self.fired += 1
+        sim = self.sim
+        if sim.livelock is None:
+            sim.livelock = sim.step
+            sim.trace_steps = False
+            sim.log("livelock", step=sim.step)
+            sim.frozen = True
+            sim.aborting = True
+        raise SimLivelock(f"no scheduler step for {LIVELOCK_CPU_S}s of CPU at step {sim.step}")
+
+    def __enter__(self) -> "_LivelockGuard":
+        import signal as _s
+
+        self._old = _s.signal(_s.SIGVTALRM, self._tick)
+        _s.setitimer(_s.ITIMER_VIRTUAL, LIVELOCK_CPU_S, LIVELOCK_CPU_S)
+        return self
+
+    def __exit__(self, *a: Any) -> None:
+        import signal as _s
+
+        _s.setitimer(_s.ITIMER_VIRTUAL, 0, 0)
+        _s.signal(_s.SIGVTALRM, self._old)
+
+
 # ---------------------------------------------------------------------- running a world
 def run_sim(sim: Sim, main: Callable[[Sim], Any]) -> None:
     """Run `main(sim)` (async) on the backend chosen by the plan under the simulator.
@@ -351,24 +408,36 @@ def run_sim(sim: Sim, main: Callable[[Sim], Any]) -> None:
         _al.propagate = False
     with warnings.catch_warnings():
         warnings.simplefilter("ignore", ResourceWarning)
-        with backend_seam(sim) as (backend, options):
+        with backend_seam(sim) as (backend, options), _LivelockGuard(sim):
             try:
                 anyio.run(harness_main, backend=backend, backend_options=options)
+                if sim.livelock is not None:  # the interrupt was swallowed further up
+                    LIVELOCKS.append({"step": sim.livelock, "exc": None})
+                    sim.crashed = f"livelock at step {sim.livelock}"
             except SimDeadlock:
                 sim.deadlock = True
                 sim.aborting = True
             except SimStepLimit:
                 sim.step_limit = True
                 sim.aborting = True
-            except Exception as e:  # noqa: BLE001
-                # the run fell apart (e.g. the code under test let a context be entered
-                # twice and the backend's bookkeeping broke).  The oracle still judges the
-                # history recorded so far; a crash without any rule violation is reported
-                # as a harness error by the runner, never as a violation.
-                import traceback as _tb
+            except BaseException as e:  # noqa: BLE001
+                if sim.livelock is not None:
+                    # cut short by the livelock watchdog: a violation of the property under
+                    # check (reported by runner.execute as <prop>.livelock), whatever
+                    # exception the interrupted backend turned it into
+                    LIVELOCKS.append({"step": sim.livelock, "exc": type(e).__name__})
+                    sim.crashed = f"livelock at step {sim.livelock}"
+                elif isinstance(e, Exception):
+                    # the run fell apart (e.g. the code under test let a context be entered
+                    # twice and the backend's bookkeeping broke).  The oracle still judges the
+                    # history recorded so far; a crash without any rule violation is reported
+                    # as a harness error by the runner, never as a violation.
+                    import traceback as _tb
 
-                sim.crashed = f"{type(e).__name__}: {e} :: {_tb.format_exc()[-600:]}"
-                sim.log("run_crashed", exc=f"{type(e).__name__}: {str(e)[:120]}")
+                    sim.crashed = f"{type(e).__name__}: {e} :: {_tb.format_exc()[-600:]}"
+                    sim.log("run_crashed", exc=f"{type(e).__name__}: {str(e)[:120]}")
+                else:
+                    raise
 
 
 class backend_seam:
